@@ -4,12 +4,16 @@
    - CRange / CTd: serializer output and what deserializing it gave, plus whether every parser
                 channel (dump -> parse_string, argv, config file) returned an equal value
    - CRangeDes / CTdDes: the deserializer on an arbitrary value (ties the model; no spec demand)
-   - CSecret:   what dump wrote for a SecretStr
-   - CDecimal:  the double float(d) (exact, as num * 2^ex), whether the file channel came back
-                equal, the text repr(float(d)) as a decimal, whether the argv channel came back equal
+   - CSecret:   what the serializer gave for a SecretStr, whether the secret showed up in any dump / save /
+                str / repr, whether the parsed value still holds the secret
+   - CDecimal:  the double float(d) (exact, as num * 2^ex; None = infinite), the text repr(float(d)) as a
+                decimal, whether the serializer returned a float (else a str), whether the file channels
+                (parse_string, config file, json) and the argv channel came back equal. The model variant is
+                chosen by the registration found in the source (Gen/C20Registry.v)
    - CBuiltin:  complex / UUID / bytes / bytearray / pathlib: Python builtins, only exercised
-     (ser = the serialised text, for the finding-class guard) *)
-From JV Require Import Lib.Base Lib.C20Text Lib.C20Regex Model.C20Base Gen.C20Operators Gen.C20Regexes
+     (ser = the serialised text; no finding class: the yaml-load-nonstr-key defect is repaired,
+      /repo commit 6120358, and a recurrence is a violation) *)
+From JV Require Import Lib.Base Lib.C20Text Lib.C20Regex Model.C20Base Gen.C20Operators Gen.C20Regexes Gen.C20Registry
   Model.C20Restricted Model.C20RestrictedStr Spec.C20RestrictedSpec Model.C20Registered.
 (* no dependency on Proofs/: the judge must still build when a proof breaks *)
 Local Open Scope Z_scope.
@@ -21,8 +25,8 @@ Inductive case :=
 | CRangeDes (v : pyval) (back : option prange)
 | CTd (total : Z) (ser : str) (back : td_res) (chan_ok : bool)
 | CTdDes (v : pyval) (back : td_res)
-| CSecret (secret ser : str) (leaked : bool)
-| CDecimal (d : decimal) (dbl : dyadic) (file_equal : bool) (text : decimal) (argv_equal : bool)
+| CSecret (secret ser : str) (leaked kept : bool)
+| CDecimal (d : decimal) (dbl : option dyadic) (text : option decimal) (ser_float file_equal argv_equal : bool)
 | CBuiltin (kind : N) (ser : str) (all_equal : bool)
 | CStr (p : pat) (v : pyval) (acc : option str) (extras_ok : bool)
 | CCrash (kind : N).    (* an exception outside the documented channel escaped, or the harness failed *)
@@ -36,16 +40,6 @@ Definition td_res_eqb (a b : td_res) : bool :=
   | TdRej, TdRej | TdOverflow, TdOverflow => true
   | _, _ => false
   end.
-
-(* Decimal guard: d is exactly a binary double with a 53-bit significand and has at most 15
-   significant digits (then repr(float(d)) denotes d as well). Outside: finding class 1. *)
-Fixpoint tz_pos (p : positive) : Z := match p with xO p' => 1 + tz_pos p' | _ => 0 end.
-Definition odd_part (n : Z) : Z := match n with Zpos p | Zneg p => Zpos p / 2 ^ tz_pos p | Z0 => 0 end.
-Definition is53 (n : Z) : bool := odd_part n <? 2 ^ 53.
-Definition dec_guard (d : decimal) : bool :=
-  (Z.abs (d_mant d) <? 10 ^ 15) && (Z.abs (d_exp d) <? 300) &&
-  if 0 <=? d_exp d then is53 (d_mant d * 10 ^ d_exp d)
-  else (d_mant d mod 5 ^ (- d_exp d) =? 0) && is53 (d_mant d / 5 ^ (- d_exp d)).
 
 (* the hand-written scanners of Model/C20Registered agree with the regexes translated from the
    source (Gen/C20Regexes.v) on the text this case reaches them with *)
@@ -63,12 +57,16 @@ Definition range_regex_agree (v : pyval) : bool :=
   | _ => true
   end.
 
-(* Finding class 2 (known_findings/C20.txt key=yaml-load-nonstr-key): texts that YAML reads as a
-   one-entry mapping with a non-string key and a null value make yaml_load raise TypeError
-   (_loaders_dumpers.py:91), so a registered value serialised to such a text cannot be read back.
-   The guard is this explicit list. *)
-Definition yaml_nonstr_key_text (ser : str) : bool :=
-  mem_str (strip ser) [[63]%N; [126; 58]%N; [110; 117; 108; 108; 58]%N; [49; 58]%N].
+(* likewise for the two patterns of timedelta_deserializer (re.match: a prefix match) *)
+Definition td_regex_agree (v : pyval) : bool :=
+  match v with
+  | PStr s =>
+      let some {A} (o : option A) := match o with Some _ => true | None => false end in
+      Bool.eqb (re_match rx_td_hms s) (some (match_hms s))
+      && Bool.eqb (re_match rx_td_days s)
+                  (match match_days s with Some (_, rest) => some (match_hms rest) | None => false end)
+  | _ => true
+  end.
 
 Definition judge1 (c : case) : verdict :=
   match c with
@@ -84,28 +82,38 @@ Definition judge1 (c : case) : verdict :=
                    && option_eqb num_eqb (spec_check_type (r_base t) (r_restr t) (r_join t) loaded orig) acc |}
   | CRange r ser back chan_ok =>
       {| v_model := str_eqb (range_serializer r) ser
-                    && option_eqb prange_same (range_deserializer (PStr ser)) back;
+                    && option_eqb prange_same (range_deserializer (PStr ser)) back && range_regex_agree (PStr ser);
          v_class := 0;
          v_spec := chan_ok && match back with Some r' => range_eqb r r' | None => false end |}
   | CRangeDes v back =>
       {| v_model := option_eqb prange_same (range_deserializer v) back && range_regex_agree v;
          v_class := 0; v_spec := true |}
   | CTd total ser back chan_ok =>
-      {| v_model := str_eqb (td_str total) ser && td_res_eqb (timedelta_deserializer (PStr ser)) back;
+      {| v_model := str_eqb (td_str total) ser && td_res_eqb (timedelta_deserializer (PStr ser)) back
+                    && td_regex_agree (PStr ser);
          v_class := 0;
          v_spec := chan_ok && td_res_eqb back (TdOk total) |}
   | CTdDes v back =>
-      {| v_model := td_res_eqb (timedelta_deserializer v) back; v_class := 0; v_spec := true |}
-  | CSecret secret ser leaked =>
+      {| v_model := td_res_eqb (timedelta_deserializer v) back && td_regex_agree v; v_class := 0; v_spec := true |}
+  | CSecret secret ser leaked kept =>
       {| v_model := str_eqb (secret_serializer secret) ser;
          v_class := 0;
-         v_spec := str_eqb ser s_stars && negb leaked |}
-  | CDecimal d dbl file_equal text argv_equal =>
-      {| v_model := Bool.eqb (dec_dy_eqb d dbl) file_equal && Bool.eqb (dec_eqb d text) argv_equal;
-         v_class := if dec_guard d then 0 else 1;
+         v_spec := str_eqb ser s_stars && negb leaked && kept |}
+  | CDecimal d dbl text ser_float file_equal argv_equal =>
+      let reg := decimal_registration registry in
+      {| v_model := match reg with
+                    | None => false
+                    | Some r =>
+                        let f := fun _ : decimal => dbl in
+                        let g := fun _ : decimal => text in
+                        Bool.eqb (match decimal_serialize f g r d with CfgFloat _ _ => true | CfgStr _ => false end) ser_float
+                        && Bool.eqb (decimal_file_equal f g r d) file_equal
+                        && Bool.eqb (decimal_argv_equal f g r d) argv_equal
+                    end;
+         v_class := dec_class reg d;
          v_spec := file_equal && argv_equal |}
   | CBuiltin _ ser all_equal =>
-      {| v_model := true; v_class := if yaml_nonstr_key_text ser then 2 else 0; v_spec := all_equal |}
+      {| v_model := true; v_class := 0; v_spec := all_equal |}
   | CStr p v acc extras_ok =>
       {| v_model := option_eqb str_eqb (construct_str p v) acc;
          v_class := 0;
